@@ -21,6 +21,28 @@ pub struct Case {
     pub toks: Vec<Tok>,
     pub place: u8,
     pub exact: bool,
+    /// embellished operators: (index of a top-level infix operator token, 1 = munder / 2 = mover with a text script,
+    /// 3 = msub with a number): an embellished operator parses exactly like its base operator
+    #[serde(default)]
+    pub emb: Vec<(usize, u8)>,
+}
+
+/// the token row of a case as MathML children (operators listed in `emb` are embellished)
+pub fn render(case: &Case) -> Vec<MNode> {
+    let mut kids = toks_to_mathml(&case.toks);
+    for (i, kind) in &case.emb {
+        if let (Some(Tok::Op(_, f)), Some(k)) = (case.toks.get(*i), kids.get_mut(*i)) {
+            if f == "infix" {
+                let base = k.clone();
+                *k = match kind {
+                    1 => MNode::el("munder", vec![base, MNode::mtext("def")]),
+                    2 => MNode::el("mover", vec![base, MNode::mtext("def")]),
+                    _ => MNode::el("msub", vec![base, MNode::mn("2")]),
+                };
+            }
+        }
+    }
+    kids
 }
 
 pub struct C03;
@@ -332,6 +354,13 @@ fn find_row<'a>(out: &'a MNode, place_name: &str) -> Option<&'a MNode> {
 fn out_tree(n: &MNode) -> PTree {
     if n.is_token() {
         PTree::Leaf(n.txt().to_string())
+    } else if is_mo(n) {
+        // an embellished operator is one token of the row: its base operator
+        let mut b = n;
+        while let Some(k) = b.kids.first() {
+            b = k;
+        }
+        PTree::Leaf(b.txt().to_string())
     } else {
         PTree::Row(n.kids.iter().map(out_tree).collect())
     }
@@ -400,10 +429,15 @@ pub fn oracle_a(sub: &MNode) -> Vec<(String, String)> {
         }
         // (b) an operand row whose principal operator is infix/postfix binds at least as tightly
         if let Some((_, rp)) = principal_info(row) {
-            for k in &row.kids {
+            for (ki, k) in row.kids.iter().enumerate() {
                 // only rows MathCAT itself introduced are judged: an author's mrow is a deliberate grouping
                 if k.tag == "mrow" && k.get_attr("data-changed") == Some("added") {
                     if let Some((cf, cp)) = principal_info(k) {
+                        // a postfix row that is the *left* operand has no other parse (a ! ⊚ b can only be (a !) ⊚ b),
+                        // just as a prefix row may be the operand of any operator
+                        if cf == "postfix" && ki == 0 {
+                            continue;
+                        }
                         if cf != "prefix" && cp < rp {
                             v.push(("looser-child-row".to_string(), format!("child row (priority {}) binds looser than its parent row (priority {}): {}", cp, rp, row.shape())));
                         }
@@ -438,7 +472,8 @@ struct Piece {
 fn piece(depth: u32) -> BoxedStrategy<Piece> {
     let p = pools();
     let pre = proptest::option::weighted(0.25, prop_oneof![3 => proptest::sample::select(p.prefix_only.clone()), 2 => Just(("-".to_string(), 690usize))]);
-    let post = proptest::option::weighted(0.2, proptest::sample::select(p.postfix_only.clone()));
+    // postfix-only operators, and the factorial (which the dictionary also lists as a prefix operator)
+    let post = proptest::option::weighted(0.2, prop_oneof![4 => proptest::sample::select(p.postfix_only.clone()), 1 => Just(("!".to_string(), 810usize))]);
     let grp: BoxedStrategy<Option<Vec<Tok>>> = if depth == 0 { Just(None).boxed() } else { proptest::option::weighted(0.3, sequence(depth - 1, 1, 3)).boxed() };
     (pre, atom(), grp, post).prop_map(|(prefix, atom, group, postfix)| Piece { prefix, atom, group, postfix }).boxed()
 }
@@ -634,10 +669,20 @@ impl Property for C03 {
     }
     fn strategy(&self, tier: Tier) -> BoxedStrategy<Case> {
         let max = if tier == Tier::Thorough { 6 } else { 5 };
-        let exact = (sequence(2, 1, max), any::<u8>()).prop_map(|(t, place)| {
+        let exact = (sequence(2, 1, max), any::<u8>(), (0..8u8, any::<u16>(), sel(&["=", "+", "≤", "→", "≡", "∼"]))).prop_map(|(t, place, (kind, which, op))| {
             let mut toks = sanitize_seq(t);
             tame_bars(&mut toks);
-            Case { toks, place, exact: true }
+            let mut emb = vec![];
+            if (1..=3).contains(&kind) {
+                // one top-level infix operator becomes an embellished relation / sum sign
+                let at: Vec<usize> = toks.iter().enumerate().filter(|(_, t)| matches!(t, Tok::Op(_, f) if f == "infix")).map(|(i, _)| i).collect();
+                if !at.is_empty() {
+                    let i = at[(which as usize * at.len()) >> 16];
+                    toks[i] = Tok::Op(op.to_string(), "infix".into());
+                    emb.push((i, kind));
+                }
+            }
+            Case { toks, place, exact: true, emb }
         });
         // validity-only part: any dictionary operator (incl. multi-form and special ones) between atoms
         let any_op = proptest::sample::select(operators().iter().filter(|o| !o.forms.iter().any(|(f, _)| matches!(f, OpForm::LeftFence | OpForm::RightFence))).map(|o| o.text.clone()).collect::<Vec<_>>());
@@ -652,7 +697,7 @@ impl Property for C03 {
                     toks.push(Tok::Op(op, "postfix".into()));
                 }
             }
-            Case { toks, place, exact: false }
+            Case { toks, place, exact: false, emb: vec![] }
         });
         prop_oneof![4 => exact, 1 => loose].boxed()
     }
@@ -662,7 +707,7 @@ impl Property for C03 {
         if api::set_pref("Chemistry", "Off").is_err() {
             return Outcome::reject("cannot switch chemistry heuristics off");
         }
-        let kids = toks_to_mathml(&case.toks);
+        let kids = render(case);
         let (tree, place_name) = place_row(kids, case.place);
         let xml = tree.to_xml();
         let out = match api::set_mathml(&xml) {
@@ -742,6 +787,11 @@ output: {}", lr, lg, xml, out.replace('\n', ""))));
                         } else {
                             classes.push("leaves-differ".into());
                         }
+                    } else if lr != lg && visible_only(&lr) == visible_only(&lg) && lg.len() > lr.len() && !case.emb.is_empty() {
+                        // the same visible tokens, but MathCAT inserted an implied operator where the reference sees no two
+                        // adjacent operands (judged for rows with an embellished operator, whose neighbours are operands
+                        // and operators exactly as for the base operator)
+                        viols.push(("B:spurious-implied-operator".to_string(), format!("reference leaves: {:?}\nMathCAT leaves:   {:?}\ninput: {}\noutput: {}", lr, lg, xml, out.replace('\n', ""))));
                     } else if lr != lg {
                         // token text was normalised or an operator was inserted that the reference does not know: not judged
                         classes.push("leaves-differ".into());
@@ -786,7 +836,7 @@ output: {}", lr, lg, xml, out.replace('\n', ""))));
     }
     fn to_json(&self, case: &Case) -> Value {
         let mut v = serde_json::to_value(case).unwrap();
-        let (tree, _) = place_row(toks_to_mathml(&case.toks), case.place);
+        let (tree, _) = place_row(render(case), case.place);
         v["xml"] = Value::String(tree.to_xml());
         v
     }
